@@ -51,7 +51,11 @@ def make_instance(rng, backend, max_states, decl=None):
     T = games.rand_table1(rng, ar, d)
     safe = games.rand_table1(rng, ar, rng.choice([0.5, 0.8]))
     unless = games.rand_table1(rng, ar, 0.2)
-    inside = [a or b for a, b in zip(T, games.rand_table1(rng, ar, 0.6))]
+    inside = games.rand_table1(rng, ar, 0.6)
+    if rng.random() < 0.5:
+        # half of the instances: the target lies inside `inside`; the others
+        # exercise the restriction of the target itself (q &= inside)
+        inside = [a or b for a, b in zip(T, inside)]
     src = games.rand_table1(rng, ar, 0.2)
     constrain = games.rand_table1(rng, ar, 0.7)
     return dict(decl=decl, backend=backend, E=E, S=S, T=T, safe=safe,
